@@ -187,3 +187,29 @@ func HC12Markup() {
 	vAssert(HTML(in, 0), "html-markup-detected")
 	vReach("end")
 }
+
+// HC12XMLUTF8: an XML declaration that says UTF-8 (any letter case, either quote) is honoured even
+// when the body is not UTF-8 or carries bytes the plain-text sniffer dislikes (the declared label
+// wins over sniffing).
+func HC12XMLUTF8() {
+	labels := []string{"UTF-8", "utf-8", "Utf-8"}
+	l := labels[vChoice("label", len(labels))]
+	q := byte('"')
+	if vChoice("quote", 2) == 1 {
+		q = '\''
+	}
+	var in []byte
+	in = append(in, "<?xml version=\"1.0\" encoding="...)
+	in = append(in, q)
+	in = append(in, l...)
+	in = append(in, q)
+	in = append(in, "?><a>caf"...)
+	b := vBytes("body", 1, 2)
+	for _, c := range b {
+		vAssume(c != '<' && c != '&' && c >= 0x20)
+	}
+	in = append(in, b...)
+	in = append(in, "</a>"...)
+	vAssert(vcharset.FromXML(in) == "utf-8", "xml-declared-utf8-honoured")
+	vReach("end")
+}
